@@ -26,7 +26,7 @@ static void GC_Mark_Stack(struct GC* gc);
 #define MAP_FIXED_NOREPLACE 0x100000
 #endif
 
-#define MAXOBJ 512
+#define MAXOBJ 2048
 #define MAXOWN 8
 #define MAXW 256
 
@@ -39,14 +39,26 @@ static var the_gc;
 static int next_alloc = -1;                /* index (not id) the next Probe allocation gets */
 static uintptr_t words[MAXW]; static int nwords;
 static int hook_calls, hook_lost;
+static int stepno;
+static int h_brief;                         /* Q toggles: slot field = #<fnv1a-32 of the slot text> */
+static int sorted_idx[MAXOBJ];             /* object indices sorted by address */
 
 struct Probe { int64_t idx; int64_t pad; };
 
 static int idx_of_id(int id) { for (int i = 0; i < nobj; i++) if (oid[i] == id) return i; return -1; }
 static uintptr_t addr_of(int idx) { return (uintptr_t)8 * (BASEH + ooff[idx]); }
 static int idx_of_ptr(var p) {
-  for (int i = 0; i < nobj; i++) if (addr_of(i) == (uintptr_t)p) return i;
+  int lo = 0, hi = nobj - 1;
+  while (lo <= hi) {
+    int mid = (lo + hi) / 2; uintptr_t a = addr_of(sorted_idx[mid]);
+    if (a == (uintptr_t)p) return sorted_idx[mid];
+    if (a < (uintptr_t)p) lo = mid + 1; else hi = mid - 1;
+  }
   return -1;
+}
+static int cmp_idx(const void* a, const void* b) {
+  uint64_t x = ooff[*(const int*)a], y = ooff[*(const int*)b];
+  return x < y ? -1 : x > y ? 1 : 0;
 }
 
 static int map_pages(uintptr_t lo, uintptr_t hi) {
@@ -104,15 +116,27 @@ static void dump(void) {
   if (gc->minptr == UINTPTR_MAX) P("-;"); else P("%" PRId64 ";", (int64_t)(gc->minptr / 8 - BASEH));
   if (gc->maxptr == 0) P("-;"); else P("%" PRId64 ";", (int64_t)(gc->maxptr / 8 - BASEH));
   P("%d;%zu;", (int)running(the_gc), (size_t)gc->freenum);
-  for (size_t i = 0; i < gc->nslots; i++) {
-    if (i) P(",");
-    if (gc->entries[i].hash == 0) { P("_"); continue; }
-    int idx = idx_of_ptr(gc->entries[i].ptr);
-    if (idx < 0) P("%" PRIu64 ":X:%d:%d", gc->entries[i].hash, (int)gc->entries[i].root, (int)gc->entries[i].marked);
-    else P("%" PRIu64 ":%d:%d:%d", gc->entries[i].hash, oid[idx], (int)gc->entries[i].root, (int)gc->entries[i].marked);
+  {
+    char* sb = NULL; size_t sl = 0; FILE* sf = open_memstream(&sb, &sl);
+    for (size_t i = 0; i < gc->nslots; i++) {
+      if (i) fputc(',', sf);
+      if (gc->entries[i].hash == 0) { fputc('_', sf); continue; }
+      int idx = idx_of_ptr(gc->entries[i].ptr);
+      if (idx < 0) fprintf(sf, "%" PRIu64 ":X:%d:%d", gc->entries[i].hash, (int)gc->entries[i].root, (int)gc->entries[i].marked);
+      else fprintf(sf, "%" PRIu64 ":%d:%d:%d", gc->entries[i].hash, oid[idx], (int)gc->entries[i].root, (int)gc->entries[i].marked);
+    }
+    fclose(sf);
+    if (h_brief) {
+      uint32_t h = 2166136261u;
+      for (size_t i = 0; i < sl; i++) { h ^= (unsigned char)sb[i]; h *= 16777619u; }
+      P("#%08x", h);
+    } else P("%s", sb ? sb : "");
+    free(sb);
   }
   P(";");
-  for (int i = 0; i < nobj; i++) P("%d", mem(the_gc, (var)addr_of(i)) ? 1 : 0);
+  /* h_brief mode: only every 8th object (rotating with the step number) is queried */
+  for (int i = 0; i < nobj; i++)
+    if (!h_brief || (oid[i] + stepno) % 8 == 0) P("%d", mem(the_gc, (var)addr_of(i)) ? 1 : 0);
   if (hook_lost) P("HOOKLOST");
 }
 
@@ -137,6 +161,9 @@ static void one_case(char* line) {
   }
   for (int i = 0; i < nobj; i++)
     for (int j = 0; j < nown[i]; j++) oown[i][j] = idx_of_id(oown[i][j]);
+  for (int i = 0; i < nobj; i++) sorted_idx[i] = i;
+  qsort(sorted_idx, nobj, sizeof(int), cmp_idx);
+  h_brief = 0;
   for (int i = 0; i < nobj; i++) {
     uintptr_t a = addr_of(i);
     if (!map_pages(a - sizeof(struct Header), a + sizeof(struct Probe))) { P("NOMAP"); return; }
@@ -144,6 +171,7 @@ static void one_case(char* line) {
   var bottom = NULL;
   the_gc = new_raw(GC, $R(&bottom));
   nwords = 0; hook_calls = 0; hook_lost = 0;
+  stepno = 0;
   P("new;"); dump();
   s = bar + 1;
   while ((tok = next_tok(&s, ' ')) != NULL) {
@@ -176,6 +204,7 @@ static void one_case(char* line) {
                     if (n0 != 0 && hook_calls != h0 + 1) hook_lost = 1;
                     GC_Sweep(g); break; }
         case 'z': GC_Sweep(g); break;
+        case 'Q': h_brief = !h_brief; break;
         case 'S': stop(the_gc); break;
         case 'T': start(the_gc); break;
         case 'm': res = mem(the_gc, (var)addr_of(idx)) ? "true" : "false"; break;
@@ -184,6 +213,7 @@ static void one_case(char* line) {
     } catch (e) { res = exn_name(e); }
     fflush(evf); OUT = real; fclose(evf);
     P("%s;%s", res, evbuf ? evbuf : ""); free(evbuf);
+    stepno++;
     dump();
     fflush(OUT);
   }
